@@ -253,7 +253,10 @@ def labels(c):
 @st.composite
 def big_case(draw, tier="quick"):
     return {"d": draw(st.sampled_from([2, 3])), "m": draw(Z.params(9)), "mclass": [draw(st.sampled_from(Z.MCLASSES)) for _ in range(3)], "size": draw(st.sampled_from([5, 63, 64, 70])),
-            "int": draw(st.booleans()), "v": draw(Z.params(6))}
+            "int": draw(st.booleans()), "v": draw(Z.params(6)), "grid": draw(st.sampled_from([None, None, 0, 1, 2, 3]))}
+
+
+GRIDS = {64: [(8, 8), (2, 32), (1, 64), (4, 4, 4)], 70: [(7, 10), (2, 5, 7), (70, 1)], 63: [(7, 9), (3, 3, 7)], 5: [(5, 1), (1, 5)]}
 
 
 def run_big(c):
@@ -274,38 +277,57 @@ def run_big(c):
         if not np.all(A == np.round(A)):
             raise Skip("not integral")
         A = A.astype(np.int64)
-    t = TransformationCollection(A)
+    grid = (size,)
+    if c.get("grid") is not None:
+        # the same matrices arranged along two or three collection axes
+        if size not in GRIDS or not isinstance(c["grid"], int):
+            raise Skip("malformed grid")
+        grid = GRIDS[size][c["grid"] % len(GRIDS[size])]
+    t = TransformationCollection(A.reshape(grid + (n, n)))
     ck = Checker()
-    site = f"big:{'int' if c['int'] else 'float'}:{'>=64' if size >= 64 else '<64'}"
+    site = f"big:{'int' if c['int'] else 'float'}:{'>=64' if size >= 64 else '<64'}" + (":several-axes" if len(grid) > 1 else "")
+
+    class _Flat:  # results are compared position by position in the flat order of the collection axes
+        def __init__(self, o, m):
+            self.ok = o.array.shape[: len(grid)] == grid
+            self.array = o.array.reshape((size,) + o.array.shape[len(grid):]) if self.ok else np.zeros((size,) + (n,) * m)
+
     inv, f = call(site + ":inverse", t.inverse)
     if f:
         return [f]
-    if ck.check(inv.array.shape == A.shape, site + ":inverse:shape", inv.array.shape):
+    inv_t = inv
+    if not ck.check(inv.array.shape == grid + (n, n), site + ":inverse:shape", inv.array.shape):
+        return ck.result()
+    inv = _Flat(inv, 2)
+    if True:
         prod = np.matmul(inv.array.astype(float), A.astype(float))
         ck.check(C.peq_all(prod, np.broadcast_to(np.eye(n), prod.shape), 2, 1e-9), site + ":inverse*t=identity", C.short(prod[0].tolist()))
     p, f = call(site + ":power", lambda: t**-1)
     if f:
         ck.add(f)
     else:
-        ck.check(p.array.shape == A.shape and C.peq_all(p.array, np.linalg.inv(A.astype(float)), 2, 1e-9), site + ":t**-1")
+        p = _Flat(p, 2)
+        ck.check(p.ok and C.peq_all(p.array, np.linalg.inv(A.astype(float)), 2, 1e-9), site + ":t**-1")
     pts = np.array([[((7 * i + 3 * j + c["v"][j % len(c["v"])]) % 11) - 5 for j in range(n)] for i in range(size)], float)
     pts[:, -1] = 1
-    X_ = PointCollection(pts)
-    y, f = call(site + ":apply", lambda: inv * (t * X_))
+    X_ = PointCollection(pts.reshape(grid + (n,)))
+    y, f = call(site + ":apply", lambda: inv_t * (t * X_))
     if f:
         ck.add(f)
     else:
-        ck.check(y.array.shape == pts.shape and C.peq_all(y.array, pts, 1, 1e-7), site + ":inverse*(t*x)=x:points")
+        y = _Flat(y, 1)
+        ck.check(y.ok and C.peq_all(y.array, pts, 1, 1e-7), site + ":inverse*(t*x)=x:points")
     lines = np.array([[((5 * i + 2 * j + c["v"][(j + 3) % len(c["v"])]) % 9) - 4 for j in range(n)] for i in range(size)], float)
     lines[~np.any(lines, axis=1), 0] = 1
     if d == 2:
-        Lc = G.LineCollection(lines)
+        Lc = G.LineCollection(lines.reshape(grid + (n,)))
         z, f = call(site + ":apply-lines", lambda: t * Lc)
         if f:
             ck.add(f)
         else:
             exp = np.einsum("nji,nj->ni", np.linalg.inv(A.astype(float)), lines)  # l' = M^-T l
-            ck.check(z.array.shape == lines.shape and C.peq_all(z.array, exp, 1, 1e-7), site + ":t*lines")
+            z = _Flat(z, 1)
+            ck.check(z.ok and C.peq_all(z.array, exp, 1, 1e-7), site + ":t*lines")
     return ck.result()
 
 
@@ -362,9 +384,9 @@ LAWS = [
         "applying t1..tm in sequence = applying their product once", shard=400),
     Law("power", lambda tier: case(tier), run_power, lambda c: c["k"] not in (0, 1), lambda c: [f"k={c['k']}", "coll" if c["kind"].endswith("coll") else "single"],
         {"quick": 600, "thorough": 10000}, "t**k = k-fold composition / inverse power / identity, for single and collection", shard=400),
-    Law("large_collection", lambda tier: big_case(tier), run_big, lambda c: c["size"] >= 64, lambda c: ["int" if c["int"] else "float", "size>=64" if c["size"] >= 64 else "size<64", f"d{c['d']}"],
+    Law("large_collection", lambda tier: big_case(tier), run_big, lambda c: c["size"] >= 64, lambda c: ["int" if c["int"] else "float", "size>=64" if c["size"] >= 64 else "size<64", f"d{c['d']}"] + (["several-axes>=64"] if c.get("grid") is not None and c["size"] >= 64 else []),
         {"quick": 300, "thorough": 5000}, "TransformationCollection of up to 70 (integer-typed or float) matrices: inverse, t**-1, action on points and lines element by element", shard=100,
-        mandatory=("int", "size>=64")),
+        mandatory=("int", "size>=64", "several-axes>=64")),
     Law("polyhedra_collection", lambda tier: polycoll_case(tier), run_polycoll, lambda c: c["n"] > 1, lambda c: [f"n{c['n']}", "single-t" if (c["single_t"] or c["n"] == 1) else "t-collection"],
         {"quick": 300, "thorough": 5000}, "collections of cuboids in one Polyhedron tensor under transformation collections: element-wise action and inverse", shard=150,
         mandatory=("t-collection", "n6")),
